@@ -109,6 +109,7 @@ Entries(prefix, files, ge124) == LET v == Classify(files, ge124).valid IN [i \in
 
 \* ---- archives (CheckZip / Unzip) ----
 \* an entry: [name (raw), size: "ok" "big" (16 MiB + 1, honest) "lie-more" (content larger than declared) "lie-less"
+\*            "lie-zero" (declares no content but has some)
 \*            "over" (declares 500 MiB + 1, more than an archive may hold) "huge" (declares 2^63, negative as a signed number)]
 \* Sizes are added up over the file entries that pass the name checks; a total over the limit is an error of the
 \* archive as a whole (sizeerr), not of an entry.
@@ -135,7 +136,7 @@ CheckZip(entries, prefix) == LET c == ZipFrom(Class0, entries, prefix) IN [valid
 \* the tree is the set of relative names of the file entries
 \* (directory entries, names ending in a slash, carry no content and are not extracted)
 IsDirEntry(e) == Len(e.name) > 0 /\ e.name[Len(e.name)] = cSl
-UnzipOK(entries, prefix) == CheckZip(entries, prefix).invalid = <<>> /\ ~CheckZip(entries, prefix).sizeerr /\ \A i \in 1..Len(entries) : IsDirEntry(entries[i]) \/ entries[i].size \notin {"lie-more", "lie-less", "over", "huge"}
+UnzipOK(entries, prefix) == CheckZip(entries, prefix).invalid = <<>> /\ ~CheckZip(entries, prefix).sizeerr /\ \A i \in 1..Len(entries) : IsDirEntry(entries[i]) \/ entries[i].size \notin {"lie-more", "lie-less", "lie-zero", "over", "huge"}
 UnzipTree(entries, prefix) ==
     {Drop(entries[i].name, Len(prefix)) : i \in {j \in 1..Len(entries) : Len(entries[j].name) > Len(prefix) /\ entries[j].name[Len(entries[j].name)] # cSl}}
 ===============================================================================
